@@ -16,7 +16,7 @@ RULE = ("every StereoMolGraph / StereoCondensedReactionGraph spec of the univers
         "applying it twice restores the original; (b) g == g.enantiomer() iff the brute-force oracle finds an isomorphism onto the "
         "mirror image.  distinct = specs")
 ASSUMPTIONS = ["descriptor comparison up to refstereo spatial identity", "semantic clause (b) on fully specified graphs only"]
-BUDGET = {"quick": 120, "thorough": 900}
+BUDGET = {"quick": 600, "thorough": 900}
 SMG, SCRG = RG.SMG, RG.SCRG
 
 
